@@ -1,5 +1,5 @@
 import SSDriver.Util
-import SSModel.Target
+import SSLemmas.Target
 namespace SS.Drv.C08
 open Lean SS.Target SS.Drv
 
@@ -7,10 +7,57 @@ def parseInsn (j : Json) : Except String Insn := do
   let a ← jArr j
   pure { op := ← jStr a[0]!, argval := ← jStr a[1]!, arg := ← jNat a[2]!, argrepr := ← jStr a[3]! }
 
+def parseScope (s : String) : Except String Scope :=
+  match s with
+  | "fast" => pure .fast | "global" => pure .global | "name" => pure .name | "deref" => pure .deref
+  | _ => throw s!"scope {s}"
+
+mutual
+  partial def parseExpr (j : Json) : Except String Expr := do
+    let a ← jArr j
+    match (← jStr a[0]!) with
+    | "var" => pure (.var (← parseScope (← jStr a[1]!)) (← jStr a[2]!))
+    | "const" => pure (.const (← jStr a[1]!))
+    | "attr" => pure (.attr (← parseExpr a[1]!) (← jStr a[2]!))
+    | "subscr" => pure (.subscr (← parseExpr a[1]!) (← parseExpr a[2]!))
+    | "call" => pure (.call (← jBool a[1]!) (← parseExpr a[2]!) (← parseArgs (← jArr a[3]!).toList))
+    | k => throw s!"expr kind {k}"
+  partial def parseArgs (js : List Json) : Except String Args :=
+    match js with
+    | [] => pure .nil
+    | x :: xs => do pure (.cons (← parseExpr x) (← parseArgs xs))
+end
+
+mutual
+  partial def parseTgt (j : Json) : Except String Tgt := do
+    let a ← jArr j
+    match (← jStr a[0]!) with
+    | "var" => pure (.var (← parseScope (← jStr a[1]!)) (← jStr a[2]!))
+    | "attr" => pure (.attr (← parseExpr a[1]!) (← jStr a[2]!))
+    | "subscr" => pure (.subscr (← parseExpr a[1]!) (← parseExpr a[2]!))
+    | "tuple" => pure (.tuple (← parseTgts (← jArr a[1]!).toList))
+    | "starred" => pure (.starred (← parseTgts (← jArr a[1]!).toList) (← parseTgt a[2]!) (← parseTgts (← jArr a[3]!).toList))
+    | k => throw s!"target kind {k}"
+  partial def parseTgts (js : List Json) : Except String Tgts :=
+    match js with
+    | [] => pure .nil
+    | x :: xs => do pure (.cons (← parseTgt x) (← parseTgts xs))
+end
+
+def showInsn (i : Insn) : String := s!"{i.op}/{i.argval}/{i.arg}/{i.argrepr}"
+
 def handle (j : Json) : Except String String := do
-  let is ← (← jArr (← jField j "insns")).toList.mapM parseInsn
-  match describeTarget is with
-  | some s => pure ("S:" ++ s)
-  | none => pure "None"
+  match j.getObjVal? "tgt" with
+  | .ok tj =>
+    -- the model of the compiler: what it emits for this target, and what the machine makes of that
+    let t ← parseTgt tj
+    let code := compileStore t
+    let txt := match describeTarget code with | some s => "S:" ++ s | none => "None"
+    pure (" ".intercalate (code.map showInsn) ++ " => " ++ txt ++ " => " ++ renderTgt t)
+  | .error _ =>
+    let is ← (← jArr (← jField j "insns")).toList.mapM parseInsn
+    match describeTarget is with
+    | some s => pure ("S:" ++ s)
+    | none => pure "None"
 
 end SS.Drv.C08
